@@ -17,8 +17,8 @@ from ..models.percolation import expectation
 from ..operands import Exact, OpCounter
 
 ID = "C17"
-RUNS = {"quick": 320, "thorough": 12000, "thorough_s": 400}
-CHUNK = 6
+RUNS = {"quick": 256, "thorough": 12000, "thorough_s": 400}
+CHUNK = 4
 RUN_TIMEOUT = 90.0
 RULE = ("seeded cover-labelled networks of 1-6 motifs (K2-K4, C4, C5, diamond, paths) glued at single vertices, tree-like "
         "and with motif-level loops, 2..18 vertices, labels in the documented key-[vertices]-[edges]-id form with "
@@ -131,6 +131,28 @@ def finish_network(prng, n, motifs):
 
 def generate(prng, tier, index):
     big = tier == "thorough" and prng.random() < 0.3
+    if index % 8 == 1:
+        # fixed-point focus: leaf-free cover with BRANCHING (every joint vertex in >= 3 motifs: one motif per edge of a
+        # small 3-/4-regular joint graph), phi above threshold, enough sweeps to converge - the only finite covers on
+        # which the limit is non-trivial (rings are one-dimensional: threshold phi = 1; leaf motifs decay to S = 0)
+        jname = prng.choice(("K4", "K4", "K33", "prism", "K5"))
+        J = {"K4": nx.complete_graph(4), "K33": nx.complete_bipartite_graph(3, 3),
+             "prism": nx.circular_ladder_graph(3), "K5": nx.complete_graph(5)}[jname]
+        shapes = prng.choice((("K2",), ("K2", "K3"), ("K2", "K2", "P3"), ("K2", "K3", "D")))
+        n = J.number_of_nodes()
+        motifs = []
+        for a, b in sorted(J.edges()):
+            sh = prng.choice(shapes)
+            verts = [a, b]
+            while len(verts) < SHAPES[sh][0]:
+                verts.append(n)
+                n += 1
+            prng.shuffle(verts)
+            motifs.append((sh, verts))
+        net = finish_network(prng, n, motifs)
+        qs = [prng.choice((0.7, 0.8, 0.9, 0.95)) for _ in range(2)]
+        return {"variant": "clean", "net": net, "iterations": 80 if "K3" not in shapes and "D" not in shapes else 50,
+                "queries": qs, "mono_grid": False, "cover_type": "motif cover", "focus": "fixedpoint:" + jname}
     net = gen_network(prng, big)
     variant = "faults" if index % 4 == 3 else "clean"
     grid = [0.0, 1.0, 0.05, 0.1, 0.2, 0.3, 0.4, 0.5, 0.6, 0.7, 0.8, 0.9, 0.95, round(prng.random(), 4)]
@@ -138,8 +160,10 @@ def generate(prng, tier, index):
     qs = [prng.choice(grid) for _ in range(nq)]
     if prng.random() < 0.5:
         qs[prng.randrange(nq)] = qs[0]          # a repeated phi
-    sc = {"variant": variant, "net": net, "iterations": prng.choice((1, 2, 3, 5, 8, 12, 20, 25, 40)),
-          "queries": qs, "mono_grid": prng.random() < 0.35, "cover_type": prng.choice(("motif cover", "MPCC", ""))}
+    iters = prng.choice((1, 2, 3, 5, 8, 12, 20, 25, 40) if tier == "thorough" else (1, 2, 3, 5, 8, 12, 20))
+    sc = {"variant": variant, "net": net, "iterations": iters, "queries": qs,
+          "mono_grid": prng.random() < 0.35 and (tier == "thorough" or iters <= 8),
+          "cover_type": prng.choice(("motif cover", "MPCC", ""))}
     if variant == "faults":
         sc["fault"] = {"query": prng.randrange(nq), "at": prng.randrange(0, 400)}
     return sc
